@@ -43,9 +43,10 @@ def load_contracts():
     import importlib
     from pyvc import spec as S
     cdir = os.path.join(ROOT, "contracts")
-    for f in sorted(os.listdir(cdir)):
-        if f.endswith(".py") and not f.startswith("_"):
-            importlib.import_module("contracts." + f[:-3])
+    import contracts as _c
+    names = [f[:-3] for f in sorted(os.listdir(cdir)) if f.endswith(".py") and not f.startswith("_")]
+    for name in [n for n in _c.ORDER if n in names] + [n for n in names if n not in _c.ORDER]:
+        importlib.import_module("contracts." + name)
     return S
 
 
@@ -653,7 +654,7 @@ def check_call(S, key, func, args, kwargs=None, ghost=None, globals_=None, extra
     env2["__universe__"] = reachable(list(env2.values()) + list(extra_roots))
     post = NEval(S, c, env2, old_env, snap, globals_)
     if exc is None:
-        clauses = list(c.ensures)
+        clauses = list(c.ensures)      # exit_ensures speak about the callee's locals: not observable from outside
         for ename, spec in c.raises.items():
             if spec.get("iff") and spec.get("when"):
                 # normal return => the raise condition was false (evaluated in the old state)
